@@ -201,6 +201,32 @@ func (x *Exec) callSSANoMerge(fn *ssa.Function, args []Value, env []Value, site 
 			return in(x, fn, args)
 		}
 	}
+	if strings.HasPrefix(fn.Name(), "vMemo") && len(args) == 1 {
+		// harness helper declared pure and read-only in its result (parsing of a
+		// concrete source text): executed once per worker, result shared by
+		// later paths
+		if s, ok := args[0].(Str); ok && s.Concrete() {
+			key := name + "\x00" + s.S
+			if x.memo == nil {
+				x.memo = map[string]Value{}
+			}
+			if v, ok := x.memo[key]; ok {
+				return v
+			}
+			defer func() {
+				if fr := recover(); fr != nil {
+					panic(fr)
+				}
+			}()
+			v := x.runBody(fn, args, env, name)
+			x.memo[key] = v
+			return v
+		}
+	}
+	return x.runBody(fn, args, env, name)
+}
+
+func (x *Exec) runBody(fn *ssa.Function, args []Value, env []Value, name string) Value {
 	if fn.Blocks == nil {
 		panic(x.unsupported("no body for %s", name))
 	}
@@ -799,6 +825,10 @@ func (x *Exec) index(fr *frame, in *ssa.Index) Value {
 		i := x.concreteIndex(it, len(b.E), "array index")
 		return b.E[i]
 	case Str:
+		if it.IsConst() && b.Concrete() {
+			i := x.concreteIndex(it, len(b.S), "string index")
+			return x.C.BVC(8, uint64(b.S[i]))
+		}
 		bs := x.strBytes(b)
 		if !it.IsConst() {
 			vals := make([]Value, len(bs))
